@@ -47,6 +47,8 @@ pub enum Fault {
     SourceError { call: usize, kind: ErrorKind },
     SourceErrorAtByte { at: usize, kind: ErrorKind },
     Garbage,
+    /// LZIP: the member_size field of a member other than the last is zeroed
+    TrailerSizeZero { member: usize },
 }
 
 impl Fault {
@@ -61,6 +63,7 @@ impl Fault {
             Fault::SourceError { .. } => "source-error@call",
             Fault::SourceErrorAtByte { .. } => "source-error@byte",
             Fault::Garbage => "garbage",
+            Fault::TrailerSizeZero { .. } => "trailer-size-zero",
         }
     }
 }
@@ -129,7 +132,14 @@ fn reader_case(ctx: &Ctx, idx: u64, r: &mut Rng, lzip: bool, tiny: bool) -> Vec<
             _ => Fault::ZeroBytes,
         }
     } else {
-        match r.below(12) {
+        match r.below(13) {
+            12 => {
+                if lzip {
+                    Fault::TrailerSizeZero { member: r.usize_below(units.max(1)) }
+                } else {
+                    Fault::CorruptControl { chunk: r.usize_below(8) }
+                }
+            }
             0 => Fault::None,
             1 | 2 => Fault::CorruptUnit { unit: r.usize_below(units.max(1)) },
             3 => Fault::CorruptControl { chunk: r.usize_below(8) },
@@ -191,6 +201,17 @@ fn reader_case(ctx: &Ctx, idx: u64, r: &mut Rng, lzip: bool, tiny: bool) -> Vec<
                 bytes[p] ^= 1 << r.below(8);
             }
         }
+        Fault::TrailerSizeZero { member } => {
+            if let Ok(ms) = walk::walk_lzip(&stream) {
+                if ms.len() > 1 {
+                    let m = &ms[*member % (ms.len() - 1)];
+                    let e = m.start + m.len;
+                    for b in &mut bytes[e - 8..e] {
+                        *b = 0;
+                    }
+                }
+            }
+        }
         Fault::Truncate { at } => bytes.truncate(*at),
         Fault::ZeroBytes => bytes.clear(),
         Fault::MissingTerminator => {
@@ -234,9 +255,14 @@ fn reader_case(ctx: &Ctx, idx: u64, r: &mut Rng, lzip: bool, tiny: bool) -> Vec<
     let sz = sizes.clone();
     let flag = std::sync::Arc::new(std::sync::atomic::AtomicBool::new(false));
     let flag2 = flag.clone();
+    // logical step bound: a reader may not call its source more often than this on `bytes`
+    let budget = 200_000 + 64 * bytes.len();
+    let bflag = std::sync::Arc::new(std::sync::atomic::AtomicBool::new(false));
+    let bflag2 = bflag.clone();
     let g = mt::guarded(3000, 90_000, move || {
         // the reader lives on this thread; its source is an in-memory faulty reader
-        let mut src = FaultyRead::new(unsafe_static(&b2), p2);
+        let (mut src, _) = FaultyRead::new(unsafe_static(&b2), p2).with_budget(budget);
+        src.budget_flag = Some(bflag2);
         src.err_flag = Some(flag2);
         let (d, delivered) = if lzip {
             match LZIPReaderMT::new(src, workers) {
@@ -285,6 +311,12 @@ fn reader_case(ctx: &Ctx, idx: u64, r: &mut Rng, lzip: bool, tiny: bool) -> Vec<
         Guarded::Stuck(w) => vec![CaseOut::viol(cell, format!("never-returns {rname} {}", fault.class()), w, desc)],
         Guarded::Timeout => vec![CaseOut::skip(cell, "watchdog without stuck predicate (inconclusive)", desc)],
         Guarded::Panicked(p) => vec![CaseOut::viol(cell, format!("panic {rname} {} @{}", fault.class(), p.site()), p.short_msg(), desc)],
+        Guarded::Done(_) if bflag.load(std::sync::atomic::Ordering::SeqCst) => vec![CaseOut::viol(
+            cell,
+            format!("unbounded-work {rname} {}", fault.class()),
+            format!("the reader called its source more than {budget} times for {} input bytes", bytes.len()),
+            desc,
+        )],
         Guarded::Done(d) => {
             let mt_res = drain_result(&d);
             // a source error at a call index is only a fault if the MT reader made that call
